@@ -240,6 +240,32 @@ def rleAux : Bytes → List (Nat × Nat) → List (Nat × Nat)
   | x :: t, (y, n) :: r => if x = y then rleAux t ((y, n + 1) :: r) else rleAux t ((x, 1) :: (y, n) :: r)
 def rle (b : Bytes) : List (Nat × Nat) := rleAux b []
 
+/-- a record whose bytes depend on their position: byte `i` is `(base + i) mod 251` (the harness writes such records, so
+    that a permutation inside one record is visible) -/
+def recBytes (base n : Nat) : Bytes := (List.range n).map fun i => (base + i) % 251
+
+/-- lossless encoding of a file as maximal runs `(start, length)` in which every byte is its predecessor plus one
+    modulo 251 — one run per record written by the harness; used to print a file -/
+def progAux : Bytes → List (Nat × Nat × Nat) → List (Nat × Nat)
+  | [], acc => (acc.map fun e => (e.1, e.2.1)).reverse
+  | x :: t, [] => progAux t [(x, 1, x)]
+  | x :: t, (s, n, l) :: r =>
+    if x = (l + 1) % 251 then progAux t ((s, n + 1, x) :: r) else progAux t ((x, 1, x) :: (s, n, l) :: r)
+def prog (b : Bytes) : List (Nat × Nat) := progAux b []
+
+/-! ### restarts with other limits -/
+
+/-- a history in segments: every segment is a new `Rotator` (`New` with its own limits on the same path, after the
+    previous one was closed) and the operations called on it -/
+def runSegs (s : St) : List (Cfg × List Op) → St
+  | [] => s
+  | (cfg, ops) :: rest => runSegs (run cfg (reopen s) ops) rest
+
+/-- all byte strings written in a segmented history, in order -/
+def writesOfSegs : List (Cfg × List Op) → List Bytes
+  | [] => []
+  | (_, ops) :: rest => writesOf ops ++ writesOfSegs rest
+
 /-- representation change for the interpreter (a closure chain would be re-evaluated on every lookup): the directory
     on indexes `< n` as an array, and back (`Lemmas.Rotation.ofArray_toArray`) -/
 def toArray (f : Files) (n : Nat) : Array (Option Bytes) := ((List.range n).map f).toArray
